@@ -111,6 +111,9 @@ class Service:
 def build(spec):
     rng = gen.rng_for(spec["seed"], PROPERTY, spec["i"])
     n = int(gen.choice(rng, [0, 1, 2, 3, 5, 8, 13, 20, 35, 60]))
+    big = spec["i"] % 40 == 7  # a long election night: hundreds of versions (any internal batching of the queue shows)
+    if big:
+        n = int(gen.choice(rng, [257, 300, 513, 700, 1100]))
     # timestamps newest first, with ties
     gaps = rng.choice([0, 0, 1, 30, 120, 600], size=n)
     ts, t = [], T0
@@ -131,6 +134,8 @@ def build(spec):
         versions.append(dict(VersionId=vid, LastModified=ts[k], Size=len(body), Key=key, IsLatest=(k == 0),
                              ETag=f'"{vid}"', StorageClass="STANDARD"))
     page_size = int(gen.choice(rng, [1, 2, 3, 5, 7, max(1, n), n + 1, 1000]))
+    if big:
+        page_size = int(gen.choice(rng, [100, 256, 333, 1000]))
     # window
     wkind = gen.choice(rng, ["all", "open-start", "open-end", "inside", "empty-future", "empty-past", "at-timestamp",
                              "cuts-page", "between"])
@@ -161,10 +166,12 @@ def build(spec):
         if wkind not in ("all",):
             start = T0 - dt.timedelta(hours=1)
     sample = int(gen.choice(rng, [1, 2, 2, 3, 5]))
+    if big:
+        sample = int(gen.choice(rng, [1, 2, 3, 5, 6, 7, 11]))
     zone = gen.choice(rng, ZONES)
     fkind = gen.choice(rng, ["none", "none", "one", "all-but-one", "random"])
     return dict(versions=versions, bodies=bodies, page_size=page_size, start=start, end=end, wkind=wkind, sample=sample,
-                zone=zone, fkind=fkind, key=key, n=n), rng
+                zone=zone, fkind=fkind, key=key, n=n, big=big), rng
 
 
 def run_case(spec, inputs=None):
@@ -200,7 +207,8 @@ def run_case(spec, inputs=None):
     if ids and failing >= set(ids):
         failing = set(list(failing)[1:])  # "all fail" is not judged: keep one alive
     fail_at = {v: ("head" if rng.random() < 0.3 else "get") for v in failing}
-    delays = {v["VersionId"]: float(rng.uniform(0, 0.006)) if rng.random() < 0.7 else 0.0 for v in versions}
+    delays = {v["VersionId"]: float(rng.uniform(0, 0.006)) if rng.random() < (0.05 if sc["big"] else 0.7) else 0.0
+              for v in versions}
     svc = Service(versions, sc["bodies"], sc["page_size"], failing, fail_at, delays)
     use_handler = spec["i"] % 5 == 0
     # the same instants, expressed in an arbitrary zone (the window is a pair of instants, not of wall-clock times)
@@ -311,6 +319,9 @@ def run_case(spec, inputs=None):
         threads = {e["thread"] for e in svc.events if e["op"] in ("get", "head")}
         out["counters"]["download_threads_seen"] = len(threads)
         out["counters"]["downloads_failed"] = len(failing)
+        if sc["big"]:
+            out["counters"]["long_histories"] = 1
+            out["sets"]["long_history_shapes"] = [[sc["n"], sc["sample"], sc["page_size"]]]
         pages = -(-sc["n"] // sc["page_size"]) if sc["n"] else 0
         layout = "0" if pages == 0 else ("1" if pages == 1 else ("2-3" if pages <= 3 else "many"))
         out["nontrivial"] = bool((pages >= 2 and len(inside) < sc["n"]) or failing)
